@@ -602,7 +602,9 @@ func (b *Builder) parentDataDefinition(o interface{}, ident string) (HasDataDefi
 	if _, parentIsChoice := o.(*Choice); parentIsChoice {
 		// YANG 1.1 allows implicit "case" statements so we detect and inject a case
 		// statement here if relevant
-		return b.Case(o, ident), true
+		implied := b.Case(o, ident)
+		implied.implied = true
+		return implied, true
 	}
 	h, valid := o.(HasDataDefinitions)
 	if !valid {
